@@ -2,12 +2,17 @@
 //
 // Op grammar (tokens separated by one space; strings hex-encoded with core.Hex, "-" = empty):
 //
-//	tree <m|d> NODE           install a configuration (m: through martianhttp.Modifier as cmd/proxy does,
-//	                          d: the parse result wired to the handlers directly)
-//	  NODE  := L <scope> LEAF | G <scope> <agg> <n> NODE*n | F <scope> COND <hasElse> NODE [NODE]
+//	tree <m|d|e> NODE         install a configuration (m: through martianhttp.Modifier as cmd/proxy does,
+//	                          d: the parse result wired to the handlers directly,
+//	                          e: end to end — POSTed to http://martian.proxy/configure through a real proxy
+//	                          wired as cmd/proxy; from then on t/q/r/qbad/rbad/cget are real HTTP requests
+//	                          through that proxy, see e2e.go)
+//	cget                      GET the configure endpoint (an API request passing through the tree)
+//	  NODE  := L <scope> LEAF | G <scope> <agg> <n> NODE*n | F <scope> COND <hasElse> NODE [NODE] |
+//	           P <scope> <n> (<priority> NODE)*n        (priority.Group: no verifier, hides what is below it)
 //	  LEAF  := status <n> | header <name> <value> | method <m> | url <s> <h> <p> <q> | qs <k> <v> |
 //	           failure <msg> | ping <s> <h> <p> <q> | nop | fail
-//	  COND  := header <name> <value> | url <s> <h> <p> <q> | method <m>
+//	  COND  := header <name> <value> | url <s> <h> <p> <q> | method <m> | qs <k> <v>
 //	  scope := d (absent) | e ([]) | q | s | b
 //	t <api> <method> <scheme> <host> <path> <query> <frag> <reqhdrs> <status> <reshdrs>
 //	                          one exchange: ModifyRequest then ModifyResponse; frag is the message id "m<k>"
@@ -28,6 +33,7 @@ import (
 	"net/http/httptest"
 	"net/url"
 	"regexp"
+	"runtime"
 	"sort"
 	"strconv"
 	"strings"
@@ -44,6 +50,7 @@ import (
 	_ "github.com/google/martian/v3/method"
 	"github.com/google/martian/v3/parse"
 	_ "github.com/google/martian/v3/pingback"
+	_ "github.com/google/martian/v3/priority"
 	"github.com/google/martian/v3/proxyutil"
 	_ "github.com/google/martian/v3/querystring"
 	_ "github.com/google/martian/v3/status"
@@ -74,7 +81,82 @@ func init() {
 		}
 		return parse.NewResult(probe{true}, msg.Scope)
 	})
+	parse.Register("c13.Watch", func(b []byte) (*parse.Result, error) {
+		var msg struct {
+			ID    int                  `json:"id"`
+			Scope []parse.ModifierType `json:"scope"`
+		}
+		if err := json.Unmarshal(b, &msg); err != nil {
+			return nil, err
+		}
+		w := &watch{id: msg.ID}
+		watchReg.mu.Lock()
+		if watchReg.m != nil {
+			watchReg.m[msg.ID] = append(watchReg.m[msg.ID], w)
+		}
+		watchReg.mu.Unlock()
+		return parse.NewResult(w, msg.Scope)
+	})
 }
+
+// watch is a verifier written the way a third party would write one against the public
+// verify.RequestVerifier / verify.ResponseVerifier interfaces: it has no lock of its own and relies
+// on its parent (martianhttp.Modifier, fifo.Group) never to reset it while one of its evaluations
+// (Modify*, Verify*) is in flight. It never records a failure, so in reports it is a no-op; what it
+// observes is whether a reset overlapped an evaluation. This is the non-race-detector witness of the
+// exclusive lock that the reset walk holds above a verifier.
+type watch struct {
+	id       int
+	side     [2]watchSide // request, response: fifo.Group locks its two sides separately, so does the probe
+	overlaps atomic.Int32
+	evals    atomic.Int32
+	resets   atomic.Int32
+}
+
+type watchSide struct{ inflight, resetting atomic.Int32 }
+
+var watchSlow atomic.Bool // set during concurrent phases: evaluations take long enough to be overlapped
+
+var watchReg struct {
+	mu sync.Mutex
+	m  map[int][]*watch
+}
+
+func (w *watch) eval(s int) {
+	w.side[s].inflight.Add(1)
+	w.evals.Add(1)
+	if w.side[s].resetting.Load() != 0 {
+		w.overlaps.Add(1)
+	}
+	if watchSlow.Load() {
+		runtime.Gosched()
+		time.Sleep(10 * time.Microsecond)
+	}
+	if w.side[s].resetting.Load() != 0 {
+		w.overlaps.Add(1)
+	}
+	w.side[s].inflight.Add(-1)
+}
+func (w *watch) doReset(s int) {
+	w.side[s].resetting.Add(1)
+	w.resets.Add(1)
+	if w.side[s].inflight.Load() != 0 {
+		w.overlaps.Add(1)
+	}
+	if watchSlow.Load() {
+		runtime.Gosched()
+	}
+	if w.side[s].inflight.Load() != 0 {
+		w.overlaps.Add(1)
+	}
+	w.side[s].resetting.Add(-1)
+}
+func (w *watch) ModifyRequest(*http.Request) error   { w.eval(0); return nil }
+func (w *watch) ModifyResponse(*http.Response) error { w.eval(1); return nil }
+func (w *watch) VerifyRequests() error               { w.eval(0); return nil }
+func (w *watch) VerifyResponses() error              { w.eval(1); return nil }
+func (w *watch) ResetRequestVerifications()          { w.doReset(0) }
+func (w *watch) ResetResponseVerifications()         { w.doReset(1) }
 
 // probe is a modifier that is no verifier; with fail set it returns an error (halts a
 // non-aggregating fifo.Group).
@@ -121,7 +203,8 @@ func (P) Nontrivial(ops []string, impl []string) bool {
 // configuration trees
 
 type node struct {
-	typ   string // L G F
+	typ   string // L G F P
+	prio  []int  // P: priority of each child
 	scope string
 	leaf  string   // status header method url qs failure ping nop fail
 	args  []string // decoded strings of the leaf / the condition
@@ -135,8 +218,8 @@ func unhexS(t string) (string, bool) {
 	return string(b), ok
 }
 
-var leafArity = map[string]int{"status": 1, "header": 2, "method": 1, "url": 4, "qs": 2, "failure": 1, "ping": 4, "nop": 0, "fail": 0}
-var condArity = map[string]int{"header": 2, "url": 4, "method": 1}
+var leafArity = map[string]int{"status": 1, "header": 2, "method": 1, "url": 4, "qs": 2, "failure": 1, "ping": 4, "nop": 0, "fail": 0, "watch": 1}
+var condArity = map[string]int{"header": 2, "url": 4, "method": 1, "qs": 2}
 
 func takeArgs(toks []string, n int, raw bool) ([]string, []string, bool) {
 	if len(toks) < n {
@@ -177,11 +260,11 @@ func parseNode(toks []string, depth int) (*node, []string, bool) {
 			return nil, nil, false
 		}
 		var ok2 bool
-		n.args, toks, ok2 = takeArgs(toks[1:], ar, n.leaf == "status")
+		n.args, toks, ok2 = takeArgs(toks[1:], ar, n.leaf == "status" || n.leaf == "watch")
 		if !ok2 {
 			return nil, nil, false
 		}
-		if n.leaf == "status" {
+		if n.leaf == "status" || n.leaf == "watch" {
 			if _, err := strconv.ParseUint(n.args[0], 10, 31); err != nil {
 				return nil, nil, false
 			}
@@ -202,6 +285,32 @@ func parseNode(toks []string, depth int) (*node, []string, bool) {
 			if !ok {
 				return nil, nil, false
 			}
+			n.kids = append(n.kids, c)
+			toks = rest
+		}
+		return n, toks, true
+	case "P":
+		if len(toks) < 1 {
+			return nil, nil, false
+		}
+		k, err := strconv.Atoi(toks[0])
+		if err != nil || k < 0 || k > 64 {
+			return nil, nil, false
+		}
+		toks = toks[1:]
+		for i := 0; i < k; i++ {
+			if len(toks) < 1 {
+				return nil, nil, false
+			}
+			pr, err := strconv.Atoi(toks[0])
+			if err != nil {
+				return nil, nil, false
+			}
+			c, rest, ok := parseNode(toks[1:], depth+1)
+			if !ok {
+				return nil, nil, false
+			}
+			n.prio = append(n.prio, pr)
 			n.kids = append(n.kids, c)
 			toks = rest
 		}
@@ -244,7 +353,7 @@ func (n *node) tokens() []string {
 	case "L":
 		out = append(out, n.leaf)
 		for _, a := range n.args {
-			if n.leaf == "status" {
+			if n.leaf == "status" || n.leaf == "watch" {
 				out = append(out, a)
 			} else {
 				out = append(out, core.HexS(a))
@@ -253,6 +362,12 @@ func (n *node) tokens() []string {
 	case "G":
 		out = append(out, b01(n.agg), strconv.Itoa(len(n.kids)))
 		for _, k := range n.kids {
+			out = append(out, k.tokens()...)
+		}
+	case "P":
+		out = append(out, strconv.Itoa(len(n.kids)))
+		for i, k := range n.kids {
+			out = append(out, strconv.Itoa(n.prio[i]))
 			out = append(out, k.tokens()...)
 		}
 	case "F":
@@ -320,6 +435,9 @@ func (n *node) json() interface{} {
 			name = "c13.Nop"
 		case "fail":
 			name = "c13.Fail"
+		case "watch":
+			name = "c13.Watch"
+			body["id"], _ = strconv.Atoi(n.args[0])
 		}
 	case "G":
 		name = "fifo.Group"
@@ -329,8 +447,18 @@ func (n *node) json() interface{} {
 			ms = append(ms, k.json())
 		}
 		body["modifiers"] = ms
+	case "P":
+		name = "priority.Group"
+		ms := []interface{}{}
+		for i, k := range n.kids {
+			ms = append(ms, map[string]interface{}{"priority": n.prio[i], "modifier": k.json()})
+		}
+		body["modifiers"] = ms
 	case "F":
 		switch n.cond {
+		case "qs":
+			name = "querystring.Filter"
+			body["name"], body["value"] = n.args[0], n.args[1]
 		case "header":
 			name = "header.Filter"
 			body["name"], body["value"] = n.args[0], n.args[1]
@@ -458,6 +586,11 @@ type impl struct {
 	resmod martian.ResponseModifier
 	vh     *verify.Handler
 	rh     *verify.ResetHandler
+	// watch probes of the installed tree that sit below an exclusive reset lock (martianhttp.Modifier
+	// at the root, or a fifo.Group above them), by id
+	guarded map[int][]*watch
+	above   map[int]string
+	w       *e2eWorld // wiring e
 }
 
 func newImpl() *impl {
@@ -472,7 +605,70 @@ func newImpl() *impl {
 
 // install returns nil when the configuration was rejected (the previous tree stays).
 func install(wiring string, n *node) *impl {
+	watchReg.mu.Lock()
+	watchReg.m = map[int][]*watch{}
+	watchReg.mu.Unlock()
+	i := install1(wiring, n)
+	watchReg.mu.Lock()
+	reg := watchReg.m
+	watchReg.m = nil
+	watchReg.mu.Unlock()
+	if i == nil {
+		return nil
+	}
+	i.guarded, i.above = map[int][]*watch{}, map[int]string{}
+	var walk func(n *node, lock string)
+	walk = func(n *node, lock string) {
+		switch {
+		case n.typ == "G" && lock == "":
+			lock = "fifo.Group"
+		case n.typ == "L" && n.leaf == "watch" && lock != "":
+			id, _ := strconv.Atoi(n.args[0])
+			i.guarded[id], i.above[id] = reg[id], lock
+		}
+		for _, k := range n.kids {
+			walk(k, lock)
+		}
+	}
+	walk(n, map[string]string{"m": "martianhttp.Modifier", "d": ""}[wiring])
+	return i
+}
+
+// overlaps reports a guarded watch probe that saw a reset overlap one of its evaluations.
+func (i *impl) overlaps() string {
+	var ids []int
+	for id := range i.guarded {
+		ids = append(ids, id)
+	}
+	sort.Ints(ids)
+	for _, id := range ids {
+		for _, w := range i.guarded[id] {
+			if n := w.overlaps.Load(); n > 0 {
+				return fmt.Sprintf("a reset overlapped an evaluation (Modify*/Verify*) of the verifier probe watch#%d %d time(s) although the probe sits below %s, whose exclusive lock must keep a reset from running concurrently with traffic and queries (%d evaluations, %d resets)",
+					id, n, i.above[id], w.evals.Load(), w.resets.Load())
+			}
+		}
+	}
+	return ""
+}
+
+func install1(wiring string, n *node) *impl {
 	b, _ := json.Marshal(n.json())
+	if wiring == "e" {
+		w, err := newE2E()
+		if err != nil {
+			panic(err)
+		}
+		code, _, _, err := w.apiCall("POST", "/configure", b)
+		if err != nil || code != 200 {
+			w.close()
+			if err != nil {
+				core.Count("e2e:configure-transport-error")
+			}
+			return nil
+		}
+		return &impl{w: w}
+	}
 	if wiring == "d" {
 		r, err := parse.FromJSON(b)
 		if err != nil {
@@ -500,6 +696,13 @@ func install(wiring string, n *node) *impl {
 }
 
 func (i *impl) traffic(m *msg) (reqErr, resErr bool) {
+	if i.w != nil {
+		a, b, err := i.w.exchange(m)
+		if err != nil {
+			panic("e2e exchange: " + err.Error())
+		}
+		return a, b
+	}
 	req := &http.Request{Method: m.method, URL: &url.URL{Scheme: m.scheme, Host: m.host, Path: m.path, RawQuery: m.qry, Fragment: m.frag},
 		Proto: "HTTP/1.1", ProtoMajor: 1, ProtoMinor: 1, Header: toHeader(m.reqH), Host: m.host, Body: http.NoBody}
 	ctx, remove, err := martian.TestContext(req, nil, nil)
@@ -525,7 +728,17 @@ func (i *impl) traffic(m *msg) (reqErr, resErr bool) {
 // documented JSON document.
 func (i *impl) query() (msgs []string, problem string) {
 	rw := httptest.NewRecorder()
-	i.vh.ServeHTTP(rw, httptest.NewRequest("GET", "http://martian.proxy/verify", nil))
+	if i.w != nil {
+		code, hdr, body, err := i.w.apiCall("GET", "/verify", nil)
+		if err != nil {
+			return nil, "transport: " + err.Error()
+		}
+		rw.Code = code
+		rw.Header().Set("Content-Type", hdr.Get("Content-Type"))
+		rw.Body = bytes.NewBuffer(body)
+	} else {
+		i.vh.ServeHTTP(rw, httptest.NewRequest("GET", "http://martian.proxy/verify", nil))
+	}
 	if rw.Code != 200 {
 		return nil, fmt.Sprintf("status %d", rw.Code)
 	}
@@ -555,6 +768,13 @@ func (i *impl) query() (msgs []string, problem string) {
 }
 
 func (i *impl) reset() int {
+	if i.w != nil {
+		code, _, _, err := i.w.apiCall("POST", "/verify/reset", nil)
+		if err != nil {
+			return -1
+		}
+		return code
+	}
 	rw := httptest.NewRecorder()
 	i.rh.ServeHTTP(rw, httptest.NewRequest("POST", "http://martian.proxy/verify/reset", nil))
 	return rw.Code
@@ -577,7 +797,7 @@ func implements(n *node) (bool, bool) {
 	switch n.leaf {
 	case "status":
 		return false, true
-	case "header", "nop", "fail":
+	case "header", "nop", "fail", "watch":
 		return true, true
 	}
 	return true, false
@@ -621,7 +841,7 @@ func project(n *node, req bool) (*onode, bool) {
 	}
 	o := &onode{n: n, pending: true}
 	switch n.typ {
-	case "G":
+	case "G", "P":
 		for _, k := range n.kids {
 			ko, ok := project(k, req)
 			if !ok {
@@ -721,6 +941,10 @@ func condHolds(n *node, m *msg, req bool) bool {
 		return !urlDiffers(n.args, m, false)
 	case "method":
 		return strings.EqualFold(m.method, n.args[0])
+	case "qs":
+		vals, _ := url.ParseQuery(m.qry)
+		vs, ok := vals[n.args[0]]
+		return ok && (n.args[1] == "" || contains(vs, n.args[1]))
 	}
 	return false
 }
@@ -739,7 +963,7 @@ func evaluate(o *onode, m *msg, req bool, hits *[]evalHit) bool {
 	switch o.n.typ {
 	case "L":
 		switch o.n.leaf {
-		case "nop":
+		case "nop", "watch":
 			return false
 		case "fail":
 			return true
@@ -764,6 +988,17 @@ func evaluate(o *onode, m *msg, req bool, hits *[]evalHit) bool {
 			}
 		}
 		return failed
+	case "P":
+		// priority.Group implements neither verify interface: the verify and reset walks of its parent
+		// skip it, so nothing below it is ever reported (or reset). It returns the first error of its
+		// children, i.e. an error iff one of them returns one.
+		var hidden []evalHit
+		for _, k := range o.kids {
+			if evaluate(k, m, req, &hidden) {
+				return true
+			}
+		}
+		return false
 	case "F":
 		if condHolds(o.n, m, req) {
 			return evaluate(o.kids[0], m, req, hits)
@@ -778,6 +1013,9 @@ func (o *onode) walk(f func(*onode)) {
 		return
 	}
 	f(o)
+	if o.n.typ == "P" {
+		return // nothing below a priority.Group is visible to the verify and reset walks
+	}
 	for _, k := range o.kids {
 		k.walk(f)
 	}
@@ -833,6 +1071,9 @@ type oracle struct {
 	api      map[int]bool // ids of API exchanges
 	epoch    map[int]int  // id -> number of resets before the exchange
 	resets   int
+	// collapse: the exchange id is not visible in the messages (end-to-end tier: no fragment on the
+	// wire); compare per verifier kind
+	collapse bool
 }
 
 func newOracle(n *node) (*oracle, bool) {
@@ -903,6 +1144,9 @@ func (o *oracle) expected() map[key]int {
 				return
 			}
 			for _, id := range n.unmet {
+				if o.collapse {
+					id = -1
+				}
 				exp[key{id, tagOf(n.n)}]++
 			}
 		})
@@ -981,7 +1225,12 @@ func (P) NewExec() core.Exec {
 	o, _ := newOracle(&node{typ: "L", scope: "d", leaf: "nop"})
 	return &ex{im: newImpl(), or: o}
 }
-func (e *ex) Close() {}
+func (e *ex) Close() {
+	if e.im != nil && e.im.w != nil {
+		e.im.w.close()
+		e.im.w = nil
+	}
+}
 
 func hexAll(msgs []string) string {
 	out := []string{"q", strconv.Itoa(len(msgs))}
@@ -1010,7 +1259,7 @@ func (e *ex) Do(op string) core.Result {
 	f := strings.Split(op, " ")
 	switch f[0] {
 	case "tree":
-		if len(f) < 3 || (f[1] != "m" && f[1] != "d") {
+		if len(f) < 3 || (f[1] != "m" && f[1] != "d" && f[1] != "e") {
 			return core.Result{Impl: "bad-op"}
 		}
 		n, rest, ok := parseNode(f[2:], 0)
@@ -1026,7 +1275,12 @@ func (e *ex) Do(op string) core.Result {
 		if im == nil {
 			return core.Result{Impl: "tree err"}
 		}
+		e.Close()
 		e.im, e.or = im, or
+		e.or.collapse = im.w != nil
+		if im.w != nil {
+			core.Count("e2e:trees")
+		}
 		return core.Result{Impl: "tree ok"}
 	case "t":
 		m, ok := parseMsg(f[1:])
@@ -1035,6 +1289,17 @@ func (e *ex) Do(op string) core.Result {
 		}
 		if _, dup := e.or.epoch[m.id]; dup {
 			return core.Result{Impl: "bad-op"} // ids must be unique within a case
+		}
+		if e.im.w != nil {
+			if !wireable(m) {
+				return core.Result{Impl: "bad-op"} // not expressible on the wire (see e2e.go)
+			}
+			a, b := e.im.traffic(m)
+			e.or.traffic(m)
+			core.Count("e2e:exchanges")
+			wire := *m
+			wire.frag = "" // a fragment is never sent
+			return core.Result{Impl: "t " + b01(a) + " " + b01(b), ModelOp: wire.op()}
 		}
 		a, b := e.im.traffic(m)
 		e.or.traffic(m)
@@ -1066,9 +1331,20 @@ func (e *ex) Do(op string) core.Result {
 			return core.Result{Impl: "bad-op"}
 		}
 		rw := httptest.NewRecorder()
-		if f[0] == "qbad" {
+		switch {
+		case e.im.w != nil:
+			meth, path := "POST", "/verify"
+			if f[0] == "rbad" {
+				meth, path = "GET", "/verify/reset"
+			}
+			code, _, _, err := e.im.w.apiCall(meth, path, nil)
+			if err != nil {
+				code = -1
+			}
+			rw.Code = code
+		case f[0] == "qbad":
 			e.im.vh.ServeHTTP(rw, httptest.NewRequest("POST", "http://martian.proxy/verify", nil))
-		} else {
+		default:
 			e.im.rh.ServeHTTP(rw, httptest.NewRequest("GET", "http://martian.proxy/verify/reset", nil))
 		}
 		io.Copy(io.Discard, rw.Body)
@@ -1077,7 +1353,30 @@ func (e *ex) Do(op string) core.Result {
 			res.Fail, res.Sig = "after a wrong-method call: "+r.Fail, r.Sig
 		}
 		return res
+	case "cget":
+		// an API request that is neither a query nor a reset: it passes through the tree and changes nothing
+		if len(f) != 1 {
+			return core.Result{Impl: "bad-op"}
+		}
+		res := core.Result{Impl: "cget 200", SkipModel: true}
+		if e.im.w != nil {
+			code, _, _, err := e.im.w.apiCall("GET", "/configure", nil)
+			if err != nil {
+				code = -1
+			}
+			res.Impl = "cget " + strconv.Itoa(code)
+			if code != 200 {
+				res.Fail, res.Sig = "GET http://martian.proxy/configure through the proxy answered "+strconv.Itoa(code), "c13:handler"
+			}
+		}
+		if _, r := e.checkedQuery(); r.Fail != "" {
+			res.Fail, res.Sig = "after an API request passed through the tree: "+r.Fail, r.Sig
+		}
+		return res
 	case "conc":
+		if e.im.w != nil {
+			return core.Result{Impl: "bad-op"}
+		}
 		if len(f) != 3 || (f[2] != "q" && f[2] != "r") {
 			return core.Result{Impl: "bad-op"}
 		}
@@ -1146,6 +1445,8 @@ func (e *ex) concurrent(seed uint64, withResets bool) core.Result {
 	var started, done [concG]atomic.Int32
 	var wg sync.WaitGroup
 	im := e.im
+	watchSlow.Store(true)
+	defer watchSlow.Store(false)
 	for g := 0; g < concG; g++ {
 		wg.Add(1)
 		go func(g int) {
@@ -1248,6 +1549,15 @@ func (e *ex) concurrent(seed uint64, withResets bool) core.Result {
 	wg.Wait()
 	core.Stats["conc:queries-during-traffic"] += queries
 	core.Stats["conc:resets-during-traffic"] += resets
+	if len(im.guarded) > 0 {
+		core.Count("conc:guarded-watch-probes")
+		if resets > 0 {
+			core.Count("conc:guarded-watch-probes-with-resets")
+		}
+	}
+	if f := im.overlaps(); f != "" {
+		return core.Result{Impl: "conc", Fail: f, Sig: "c13:reset-overlaps-evaluation"}
+	}
 	full := snap(&done)
 	msgs, problem := im.query()
 	if problem != "" {
@@ -1256,6 +1566,7 @@ func (e *ex) concurrent(seed uint64, withResets bool) core.Result {
 	if f, sig := verdict(msgs, full, full, "query at quiescence"); f != "" {
 		return core.Result{Impl: "conc", Fail: f, Sig: sig}
 	}
+	res := core.Result{Impl: "conc"}
 	if !withResets {
 		// exact totals: ledger before the phase + every unmet evaluation of the phase
 		for g := range plan {
@@ -1266,6 +1577,25 @@ func (e *ex) concurrent(seed uint64, withResets bool) core.Result {
 		if f, sig := e.or.check(msgs); f != "" {
 			return core.Result{Impl: "conc", Fail: "totals at quiescence: " + f, Sig: sig}
 		}
+		// linearisability against the model (Props/C13/Conc.lean, batch_linearisable): the report at
+		// quiescence is, as a multiset, the report of the sequential model after the same exchanges in
+		// any order; the model gets them goroutine by goroutine and both sides sort the report
+		sorted := append([]string{}, msgs...)
+		sort.Strings(sorted)
+		hs := make([]string, len(sorted))
+		for i, s := range sorted {
+			hs[i] = core.HexS(s)
+		}
+		sort.Strings(hs)
+		res.Impl = strings.Join(append([]string{"conc", strconv.Itoa(len(hs))}, hs...), " ")
+		mo := []string{"concq", strconv.Itoa(concG * concK)}
+		for g := range plan {
+			for _, p := range plan[g] {
+				mo = append(mo, strings.Split(p.m.op(), " ")[1:]...)
+			}
+		}
+		res.ModelOp = strings.Join(mo, " ")
+		core.Count("conc:quiescent-report-compared-with-model")
 	}
 	if code := im.reset(); code != 204 {
 		return core.Result{Impl: "conc", Fail: "reset handler answered " + strconv.Itoa(code), Sig: "c13:handler"}
@@ -1279,5 +1609,5 @@ func (e *ex) concurrent(seed uint64, withResets bool) core.Result {
 	if _, r := e.checkedQuery(); r.Fail != "" {
 		return core.Result{Impl: "conc", Fail: "after the final reset: " + r.Fail, Sig: r.Sig}
 	}
-	return core.Result{Impl: "conc"}
+	return res
 }
